@@ -260,6 +260,9 @@ def status_line(ck, ctx):
 
 def run(ck, ctx):
     status_line(ck, ctx)
+    # the counts reach the renderer: every Progress method of the fancy console forwards to FancyState under the lock
+    from . import fancy as FY
+    FY.forward(ck, ctx)
     # `tasks_run + work.tasks_run` does not double count: whenever phase 1 ran a command, phase 2 counts in a Work created after it
     from . import C17 as R17
     _info = R17.analyse(ck, ctx)
